@@ -132,6 +132,11 @@ export function advCases() {
     ['type A = { x: A["x"] };', 'A'], ['type A = A["k"];', 'A'], ['type A = Partial<A>;', 'A'], ['type A = Pick<A, "x">;', 'A'], ['type K = K; type A = Pick<{x: 1}, K>;', 'A'],
     ['type A = B & { y: 1 }; type B = A | { z: 2 };', 'A'], ['type A = (A);', 'A'], ['type A = Omit<B, "q">; type B = Required<A>;', 'A'],
     ['type A = { x: B }; type B = A["x"];', '{ p: B }'], ['type A = B[number]; type B = A[];', '{ p: A }'], ['type A = [A][0];', '{ p: A }'],
+    // cycles through several branches: exploring every branch after the depth limit was hit would take 2^depth steps
+    ['type A = A | A;', 'A'], ['type A = A | A;', '{ p: A }'], ['type A = A & A;', 'A'], ['type Tree = Tree | Tree[] | (Tree & Tree);', 'Tree'], ['type Tree = Tree | Tree[] | (Tree & Tree);', '{ p: Tree }'],
+    ['interface A extends A, A { x: 1 }', 'A'], ['interface A extends B, C {} interface B extends A, C {} interface C extends A, B {}', 'A'],
+    ['type A = Partial<A> | Required<A>;', 'A'], ['type A = Pick<A, "x"> & Omit<A, "y">;', 'A'], ['type K = K | K; type A = Pick<{ x: 1 }, K>;', 'A'], ['type A = [A, A][0] | [A, A][1];', '{ p: A }'],
+    ['type A = NonNullable<A | A>;', '{ p: A }'], ['type A = Exclude<A | A, A>;', '{ p: A }'], ['type A = { x: A["x"] | A["x"] };', '{ p: A["x"] }'], ['type A = (A | A)["k"];', '{ p: A }'],
     ['type A = NonNullable<A>;', '{ p: A }'], ['type A = Exclude<A, null>;', '{ p: A }'], ['type A = A | string;', '{ p: A }'], ['interface I { k: I["k"] }', '{ p: I["k"] }'],
   ];
   for (const [decls, p] of cyc) {
